@@ -458,6 +458,33 @@ def make_models():
             out.append((none_before, [s]))
         return out
 
+    def m_split_once(ex, st, args, dest_ty, fname):
+        """str::split_once(pat) for a char or a &str pattern: Some((before, after)) at the first occurrence, else None."""
+        s_ = sval(ex, st, args[0])
+        pat = args[1]
+        pv = deref_all(ex, st, pat) if isinstance(pat, tuple) else pat
+        pcs = list(str_chars(pv)) if isinstance(pv, (SymStr, ConcStr)) else [pv]
+        cs = str_chars(s_)
+        k = len(pcs)
+        if k == 0:
+            raise ExecError("split_once with an empty pattern")
+        cases = []
+        none_before = True
+        for j in range(0, len(cs) - k + 1):
+            hit = True
+            for a, b in zip(cs[j:j + k], pcs):
+                hit = b_and(hit, _simp(a == b))
+            hit = _simp(hit)
+            cond = _simp(b_and(none_before, hit))
+            if cond is not False and ex.ctx.feasible(st.pc, z3bool(cond) if cond is not True else True):
+                cases.append((cond, some(("agg", (("refval", _substr(s_, 0, j)), ("refval", _substr(s_, j + k, len(cs))))))))
+            none_before = _simp(b_and(none_before, b_not(hit)))
+            if none_before is False:
+                break
+        if none_before is not False:
+            cases.append((none_before, NONE))
+        return cases[0][1] if len(cases) == 1 and cases[0][0] is True else cases
+
     def m_split_collect(ex, st, args, dest_ty, fname):
         it = args[0]
         if it.done or it.left == 0:
@@ -748,6 +775,7 @@ def make_models():
         M(r"^core::str::<impl str>::trim$", m_trim),
         M(r"^core::str::<impl str>::trim_end$", m_trim_end),
         M(r"^core::str::<impl str>::parse::<usize>$", m_parse_usize),
+        M(r"^core::str::<impl str>::split_once::<(&str|char)>$", m_split_once),
         M(r"^core::str::<impl str>::parse::<u16>$", parse_unsigned(16)),
         M(r"^core::num::<impl usize>::from_str_radix$", m_from_str_radix16),
         M(r"^<std::str::SplitN<'_, char> as Iterator>::collect::<Vec<&str>>$", m_split_collect),
